@@ -4,7 +4,8 @@ import BbRe.Drivers.Util
 /-!
 Driver for `Model/Fair.lean`.  One request per line:
 
-  pick <now> L <n> <limit>* S <n> <start>* K <n> <key>* T <tree>
+  pick <now> L <n> <limit>* S <n> <start>* K <n> <key>* U <n> <update>* T <tree>
+      (the updates — see `apply` — are applied to the tree first: what the segment did before the decision)
       -> wf=<0|1> cache=<0|1> multi=<0|1> code=<op>/<retained>|- legacy=<op>/<retained>|- spec=<op>/<retained>,..
          code   = pickFromQueue (the code's walk over the heap roots)
          legacy = the same walk with the window of the code before fix 5bea868 (level-0 starting time)
@@ -78,18 +79,6 @@ def multiAlong (win : Nat → Bool) (nlim : Nat) : Nat → Inv → List Nat → 
         | none => false
         | some ci => multiAlong win nlim fuel ci keys' lvl'
 
-def pickReq : P String := do
-  let now ← nat
-  lit "L"; let limits ← counted nat
-  lit "S"; let starts ← counted nat
-  lit "K"; let keys ← counted nat
-  lit "T"; let t ← tree
-  let w : WView := ⟨keys, limits, starts, now⟩
-  let code := pickFromQueue t w
-  let legacy := pickFromQueue t w true
-  let multi := multiAlong w.docWindow limits.length t.depth t keys 0
-  pure s!"wf={b01 t.wf} cache={b01 t.cacheOk} multi={b01 multi} code={showPick code} legacy={showPick legacy} spec={showSet (specPick t w)}"
-
 def handoffReq : P String := do
   lit "I"; let invs ← counted (counted nat)
   lit "T"; let t ← tree
@@ -125,6 +114,20 @@ def update : P Update := do
   | "mk" => do let path ← counted nat; let k ← nat; let now ← nat; pure (.create path k now)
   | "rm" => do let path ← counted nat; let k ← nat; pure (.removeIfEmpty path k)
   | _ => failure
+
+def pickReq : P String := do
+  let now ← nat
+  lit "L"; let limits ← counted nat
+  lit "S"; let starts ← counted nat
+  lit "K"; let keys ← counted nat
+  lit "U"; let us ← counted update
+  lit "T"; let t0 ← tree
+  let t := applyAll us t0
+  let w : WView := ⟨keys, limits, starts, now⟩
+  let code := pickFromQueue t w
+  let legacy := pickFromQueue t w true
+  let multi := multiAlong w.docWindow limits.length t.depth t keys 0
+  pure s!"wf={b01 t.wf} cache={b01 t.cacheOk} multi={b01 multi} code={showPick code} legacy={showPick legacy} spec={showSet (specPick t w)}"
 
 /-- `apply U <n> <update>* T <tree>` -> the tree after the updates, one entry per invocation. -/
 def applyReq : P String := do
